@@ -428,13 +428,16 @@ LEAF_INVS = ["Rollback", "NestEquiv", "NoneAccepted", "Idempotent", "Monotone", 
 STRUCT_INVS = ["Rollback", "NoneAccepted", "Idempotent", "Monotone", "FormMeaning", "UnboundIsError"]
 
 C04_U = dict(Mode="leaf", Depth=2, Width=2, NodeKinds={"tuple"}, AtomSet={"int", "arr2", "arr3"}, SmallDepth=1,
-             LeafSet={"arrA", "arrBV", "uAV", "utA", "ptA"}, MemoSet={"empty", "a2", "bv1"})
+             LeafSet={"arrA", "arrBV", "uAV", "uAshV", "utA", "ptA"}, MemoSet={"empty", "a2", "bv1"})
 
 
 def run_for_c04(chk, tier):
     """C04's PyTree half: failing trees whose mismatch is at the k-th leaf, structure bound before a
     bad leaf, broadcastable *#v widened by an earlier leaf - post-context must equal pre-context."""
     u = dict(C04_U)
+    # with the structure name already bound (so that a failing later leaf is the only reason for rejection)
+    run_table(chk, "C04", dict(C04_U, NodeKinds={"tuple"}, Depth=1, LeafSet={"uAshV", "arrBV"}, MemoSet={"tpair", "tpair_a2"}),
+              "c04-pytree-bound-structure", ["Rollback", "Monotone"])
     if tier == "thorough":
         u.update(NodeKinds={"tuple", "dict"}, Width=2, AtomSet={"int", "arr2", "arr3", "arr23"})
     run_table(chk, "C04", u, "c04-pytree", LEAF_INVS)
